@@ -44,7 +44,7 @@ def rule(tier):
 def floors(tier):
     return {"evaluations": 20_000 if tier == "quick" else 150_000, "distinct": 15_000 if tier == "quick" else 100_000,
             "counters": {"date_cells_open": 5000, "date_cells_reloaded": 5000, "duration_cells_open": 10_000, "duration_cells_reloaded": 10_000, "composites": 500,
-                         "quoted_composites": 100, "date_cells_in_two_table_documents": 1500, "auto_unit_cells": 300, "W_months_checked": 20, "unit_pairs": 21},
+                         "quoted_composites": 100, "date_cells_in_two_table_documents": 1500, "custom_formats_created_after_the_first_display": 8, "auto_unit_cells": 300, "W_months_checked": 20, "unit_pairs": 21},
             "hist_sizes": {"directive": 36}}
 
 
@@ -180,6 +180,21 @@ def run_date_cells(cases, rec, tag, two=None, order=None):
             rec.count("date_cells_open")
             if two:
                 rec.count("date_cells_in_two_table_documents")
+        # a custom format created after cells of the document have been displayed once is a format like any other
+        late = next((cs for cs in cases if cs["custom"]), None)
+        if late is not None and not two and len(cases) < 2000:
+            r, c = nrows, 0
+            t = datetime(*late["t"])
+            lcase = {"part": "dates-doc", "cases": [cs for cs in cases[:1]] + [late], "late": True}
+            try:
+                tables[0].write(r, c, t)
+                fmt_late = doc.add_custom_format(name="vf late format", type="datetime", format=late["fmt"])
+                tables[0].set_cell_formatting(r, c, "custom", format=fmt_late)
+                rec.count("custom_formats_created_after_the_first_display")
+                placed.append((0, r, c, late, t, lcase))
+                open_texts[(0, r, c)] = judge(tables[0].cell(r, c), late, t, lcase, "open")
+            except Exception as e:  # noqa: BLE001
+                rec.violation("format_refused", {"kind": "date", "exc": type(e).__name__, "custom": True, "when": "after-first-display"}, {"fmt": late["fmt"], "msg": str(e)[:200]}, case=lcase)
         try:
             doc2 = save_reopen(doc, tag)
         except Exception as e:  # noqa: BLE001
